@@ -1158,7 +1158,10 @@ class Interp:
             raise Undecided(f'statement {type(st).__name__} outside the subset (line {st.lineno})')
         if 'stmt' in self.hooks:
             self.hooks['stmt'](self, st, scope)
-        return m(st, scope)
+        r = m(st, scope)
+        if 'after-stmt' in self.hooks:
+            self.hooks['after-stmt'](self, st, scope)
+        return r
 
     def s_Expr(self, st, scope):
         if isinstance(st.value, ast.Constant):
